@@ -344,6 +344,18 @@ def proof_stage(rep: Report, prop_file: str, extra_gate: list[str] | None = None
         rep.coverage["discharged"] = n
         tb = print_assumptions(prop_file)
         rep.coverage["print_assumptions"] = tb
+        if rep.tier == "thorough":
+            # independent re-check of the compiled cone and its axioms
+            mod = "AV." + prop_file[:-2].replace("/", ".")
+            rc, out = sh(["timeout", "1500", "coqchk", "-o", "-silent", "-Q", ".", "AV", mod], cwd=COQ, timeout=1600)
+            m = re.search(r"\* Axioms:(.*?)\n\s*\n", out, re.S)
+            axioms = " ".join(m.group(1).split()) if m else "?"
+            rep.coverage["coqchk"] = {"cmd": f"coqchk -o -Q . AV {mod}", "ok": rc == 0 and "successfully checked" in out,
+                                      "axioms": axioms}
+            if rc != 0:
+                rep.coverage["proof_failure"] = {"where": "coqchk " + mod, "gate": [], "log_tail": out[-800:]}
+                rep.coverage["discharged"] = 0
+                return False
         return True
     rep.coverage["discharged"] = 0
     m = re.search(r'File "\./([^"]+)", line (\d+)', log)
